@@ -19,12 +19,18 @@ func VerifC04reopen() {
 	db := modelkv.NewUnorderedDB()
 	rs := mwMustOpen(db)
 	ref := mwNewRef()
-	b1 := mwBlock(1 + v.Tier())
+	block := func() []mwOp {
+		if v.Tier() > 0 { // thorough: two writes per block, keys from a concrete set
+			return mwBlockFrom(2, [][]byte{{0x10}, {0x20}})
+		}
+		return mwBlock(1)
+	}
+	b1 := block()
 	mwApply(rs, b1)
 	ref.apply(b1)
 	id1 := rs.Commit()
 	ref1 := ref.clone()
-	b2 := mwBlock(1 + v.Tier())
+	b2 := block()
 	mwApply(rs, b2)
 	ref.apply(b2)
 	id2 := rs.Commit()
